@@ -54,6 +54,8 @@ def _finite_nonneg(v):
 
 
 def _grads(torch, c, named):
+    if not c.requires_grad or not named:          # a cost that is a constant: nothing receives a gradient
+        return {n: None for n, _ in named}
     g = torch.autograd.grad(c, [q for _, q in named], allow_unused=True, retain_graph=True)
     return {n: (None if gg is None else [float(v) for v in gg.flatten()]) for (n, _), gg in zip(named, g)}
 
@@ -179,7 +181,7 @@ def sn_case(torch, seed, mname, full_cost):
                             v = dict(vars(ly)); v.update(shapes_dict(nd))
                             ci += float(fmap[ln](v))
                         bc.append(ci)
-                    gth = torch.autograd.grad(c, layer.theta_alpha, retain_graph=True, allow_unused=True)[0]
+                    gth = torch.autograd.grad(c, layer.theta_alpha, retain_graph=True, allow_unused=True)[0] if (c.requires_grad and layer.theta_alpha.requires_grad) else None
                     o['mix'].append({'spec': which, 'comb': lname, 'theta': [float(v) for v in layer.theta_alpha.detach()], 'branch_cost': bc,
                                      'dcost_dtheta': None if gth is None else [float(v) for v in gth]})
                     if any(not _finite_nonneg(v) for v in bc):
@@ -280,7 +282,7 @@ def mps_case(torch, seed, mname, per_channel):
                 for lname, node, layer in target:
                     if isinstance(layer, (MPSConv2d, MPSLinear)):
                         thin, thw, cm = _layer_matrix(layer, fmap[lname], shapes_dict(node))
-                        gth = torch.autograd.grad(c, layer.w_mps_quantizer.theta_alpha, retain_graph=True, allow_unused=True)[0]
+                        gth = torch.autograd.grad(c, layer.w_mps_quantizer.theta_alpha, retain_graph=True, allow_unused=True)[0] if (c.requires_grad and layer.w_mps_quantizer.theta_alpha.requires_grad) else None
                         if gth is not None and gth.dim() == 2:
                             gth = gth.sum(dim=1)       # per channel: theta_w_j = mean_c theta[j, c]
                         o['mps'].append({'spec': which, 'layer': lname, 'thin': thin, 'thw': thw, 'c': cm, 'dcost_dthw': None if gth is None else [float(v) for v in gth]})
